@@ -93,6 +93,39 @@ theorem delete_refines (σ : FnM.St) (a : Nat) (x : String) (hv : Visible σ x) 
     absR (boolR (FnM.objDelete a x false σ)) = Fn.delProp (absSt σ) (.ref a) x :=
   delete_spec σ a x hv hn hc hmo
 
+/-- **the parameter map of the arguments object** (§10.6 step 11) on the real data, for every parameter list
+    (duplicates, fewer / more arguments than parameters) -/
+theorem arguments_map_refines (params : List String) (nargs : Nat) (hne : "" ∉ params) :
+    (FnM.indexOfParameterNames params nargs).map optName = specArgMap params nargs :=
+  arguments_map_real params nargs hne
+
+/-- **declaration binding instantiation** (§10.5) on the real data structures: entering a function, otto's fresh
+    function stash (cmplCallNodeFunction before the body) and FnSpec's fresh declarative record (`Fn.instantiate`)
+    bind every identifier to the SAME slot (which argument / which function declaration / the arguments object /
+    undefined) — parameters with duplicates, a parameter, function or variable named `arguments`, functions over
+    variables and parameters.  The values differ only by where the two sides allocate the closures and the
+    arguments object (`interp`).  (Lifts CallThm.binding_instantiation.) -/
+theorem binding_instantiation_real (n function st i : Nat) (c : Fn.Ctx) (fv : Fn.V) (ps vs : List String) (ds : Fn.FDecls)
+    (args : List Fn.V) (σ : FnM.St) (σs : Fn.St) (outer : Option Nat) (sc : FnM.Scope) (rest : List FnM.Scope) (env0 : Fn.Env)
+    (hsc : σ.scopes = sc :: rest) (hlex : sc.lexical = st) (hvar : sc.variable_ = st) (hev : sc.eval = false)
+    (hs : σ.stash? st = some (.fn outer [] none)) (hn : (declNames ds).length < n) (hlen : args.length < 4294967295)
+    (hi : i ≠ 0) (he : σs.envs[i]? = some env0) (hv0 : env0.vars = []) :
+    ∃ σ' ps' ar' σs' vars',
+      FnM.instantiateNode n function st ps vs ds args σ = .ok () σ' ∧ σ'.stash? st = some (.fn outer ps' ar') ∧
+      Fn.instantiate n i c ps args fv ds vs σs = .ok () σs' ∧ σs'.envs[i]? = some { env0 with vars := vars' } ∧
+      ∀ x, ∃ slot : Option Call.Slot,
+        (Fn.lookupA x ps').map (·.value) =
+          slot.map (interp args (fun j => σ.heap.length + (if ps.contains "arguments" then 0 else 1) + 2 * j) (.ref σ.heap.length)) ∧
+        Fn.lookupA x vars' =
+          slot.map (interp args (fun j => σs.heap.length + 2 * j) (.ref (σs.heap.length + 2 * (declNames ds).length))) := by
+  obtain ⟨σ', ps', ar', hrun, hst, hrel⟩ := instantiateNode_real n function st ps vs ds args σ outer sc rest hsc hlex hvar hev hs hn hlen
+  obtain ⟨σs', vars', hruns, henv, hrels⟩ := instantiate_spec n i c ps args fv ds vs σs env0 hi hn he hv0
+  refine ⟨σ', ps', ar', σs', vars', hrun, hst, hruns, henv, ?_⟩
+  intro x
+  refine ⟨Call.lookup x (Call.specInst ps args.length (declNames ds) vs), ?_, ?_⟩
+  · rw [rel_lookup _ x _ ps' hrel, CallThm.binding_instantiation]
+  · rw [hrels, relS_lookup]
+
 /-! ## the conditions are satisfiable: decidable checkers, and a concrete state -/
 
 def isArgs : FnM.OVal → Bool | .arguments .. => true | _ => false
@@ -242,5 +275,22 @@ example : absR (boolR (FnM.objDelete 12 "1" false σ2)) = Fn.delProp (absSt σ2)
 example : (match Fn.delProp (absSt σ2) (.ref 12) "1" with
     | .ok v s => (v, (s.obj? 12).map (·.kind) |>.map fun k => match k with | .args m _ => m | _ => [])
     | _ => (.undef, none)) = (.bool true, some [none, none]) := by decide
+
+/-- entering `function f(a, a) { function g(){} var v, a }` called as f(7): a state as enterFunctionScope leaves
+    it (fresh function stash 1 inside the global stash, one scope) -/
+def σe : FnM.St :=
+  { FnM.initSt with stashes := [ .obj none FnM.gObj, .fn (some 0) [] none ],
+                    scopes := [ { lexical := 1, variable_ := 1, this := FnM.gObj } ] }
+
+def dsE : Fn.FDecls := .cons "g" (.func (some "g") [] [] .nil .nil) .nil
+
+example : (match FnM.instantiateNode 5 3 1 ["a", "a"] ["v", "a"] dsE [.num 7] σe with
+    | .ok _ σ' => (FnM.dclProps σ' 1).map fun kp => (kp.1, kp.2.value)
+    | _ => []) = [("a", .undef), ("arguments", .ref 11), ("g", .ref 12), ("v", .undef)] := by decide
+
+example : (match Fn.instantiate 5 1 { env := 1, venv := 1, this := .ref Fn.gObj } ["a", "a"] [.num 7] (.ref 3) dsE ["v", "a"]
+      { Fn.initSt with envs := Fn.initSt.envs ++ [{ vars := [], outer := some 0 }] } with
+    | .ok _ s => (s.envs[1]?.map (·.vars)).getD []
+    | _ => []) = [("a", .undef), ("g", .ref 6), ("arguments", .ref 8), ("v", .undef)] := by decide
 
 end OttoVerif.C01.FnThm
